@@ -5,6 +5,7 @@
 (*          2-jet at the point (the spline reproduces it): every observed    *)
 (*          value, as an integer at scale S, must be the rational FieldOps   *)
 (*          defines; the Python evaluator's rationals must be equal to them  *)
+(*  evalonly : only the evaluator's rationals against the specification    *)
 (*  nodes : the interpolant reproduces the data at the input nodes           *)
 (*  fd    : exposed derivatives against central differences of the function  *)
 (*          they differentiate, div B = 0, derived functions against the     *)
@@ -25,6 +26,15 @@ Clause(name, ok) == ClauseAt(name, "", ok)
 Near(obs, e, S, tol) == Abs(obs) <= 1000000000 \div e[2] /\ Abs(obs * e[2] - e[1] * S) <= tol * e[2]
 Undefined == 2000000000            \* the driver's mark for a non-finite value
 
+\* the Python evaluator used on smooth data (and by C07 for curl(b/B)) is the specification
+EvalClauses ==
+  LET pt == Obs.pt
+      d == Def(pt) IN
+  /\ \A k \in 1..Len(Names) : ClauseAt("EvaluatorIsSpec", Names[k], Obs.ev[Names[k]] = d[Names[k]])
+  /\ \A k \in 1..Len(FNames) : ClauseAt("EvaluatorIsSpec", FNames[k], IF GradSq(pt) = 0 THEN Obs.ev[FNames[k]] = <<0, 0>> ELSE Obs.ev[FNames[k]] = DefF(pt)[FNames[k]])
+  /\ \A k \in 1..Len(CurlNames) : ClauseAt("EvaluatorIsSpec", CurlNames[k],
+        IF d.B2[1] = 0 THEN Obs.ev[CurlNames[k]] = <<0, 0>> ELSE Obs.ev[CurlNames[k]] = CurlRec(pt)[CurlNames[k]])
+
 JudgeExact ==
   LET pt == Obs.pt
       d == Def(pt)
@@ -37,9 +47,7 @@ JudgeExact ==
   /\ ClauseAt("CodeIsSpec", "dBdZ", d.B2[1] = 0 \/ Near(Obs.twoBdBdZ, d.dB2dZ, S, 5))
   \* nothing defined comes out non-finite
   /\ Clause("DefinedIsFinite", \A k \in 1..Len(Names) : Obs.obs[Names[k]] # Undefined)
-  \* the Python evaluator used on smooth data is the specification
-  /\ \A k \in 1..Len(Names) : ClauseAt("EvaluatorIsSpec", Names[k], Obs.ev[Names[k]] = d[Names[k]])
-  /\ \A k \in 1..Len(FNames) : ClauseAt("EvaluatorIsSpec", FNames[k], IF GradSq(pt) = 0 THEN Obs.ev[FNames[k]] = <<0, 0>> ELSE Obs.ev[FNames[k]] = DefF(pt)[FNames[k]])
+  /\ EvalClauses
 
 JudgeNodes ==
   /\ Clause("NodesReproduced", Obs.dev <= 1000 /\ Obs.dev_scalar <= 1000)          \* 1e-9 of the range of psi
@@ -71,6 +79,7 @@ JudgeShape ==
 Judge ==
   /\ done = FALSE
   /\ CASE Obs.kind = "exact" -> JudgeExact
+       [] Obs.kind = "evalonly" -> EvalClauses
        [] Obs.kind = "nodes" -> JudgeNodes
        [] Obs.kind = "fd" -> JudgeFd
        [] Obs.kind = "agree" -> JudgeAgree
